@@ -326,9 +326,16 @@ def check_property(prop, tier='quick'):
             if not rel:
                 continue
             obligations += 1
-            if fb['success']:
+            ok_here = fb['success']
+            if not ok_here and ucfg.get('kinds'):
+                # a property restricted to some kinds of obligations (e.g. C07: safety / termination) counts a function as discharged
+                # when none of ITS failures is of a relevant kind (the other kinds are decided under the property that owns them)
+                mine = [f for f in fails if strip_mod(f['fn']) == strip_mod(nm) or f['fn'] == nm]
+                if mine and not any(relevant(prop, spec, ur.unit, f) for f in mine):
+                    ok_here = True
+            if ok_here:
                 discharged += 1
-            fn_rows.append({'fn': ur.unit + '::' + nm, 'mode': fb['mode'], 'ok': fb['success'], 'smt_us': fb['time_us'], 'rlimit': fb['rlimit']})
+            fn_rows.append({'fn': ur.unit + '::' + nm, 'mode': fb['mode'], 'ok': ok_here, 'smt_us': fb['time_us'], 'rlimit': fb['rlimit']})
         for rec in ur.u.records:
             if rec.kind not in ('fn', 'sig'):
                 continue
